@@ -45,7 +45,10 @@ def names():
             if k:
                 out.append("a" * (L - k * w) + CH[w] * k)
                 out.append(CH[w] + "a" * (L - w))
-    out += ["\ufeffPorch plug", "\ufeff", "a\ufeff", "\u200fBoiler", "Boiler\u200e", "\u200b", "\ufffeX", "\x7f\x01", "My Switcher Boiler", "Switcher Breeze_5679", "בוילר ראשי", "café", "x", "a b", "Tab\there"]
+    out += ["Boiler 100%", "50% off", "%s", "%(name)s %d", "{}", "{0!r}", "a\\nb", "${HOME}", "\ufeffPorch plug", "\ufeff", "a\ufeff", "\u200fBoiler", "Boiler\u200e", "\u200b", "\ufffeX", "\x7f\x01", "My Switcher Boiler", "Switcher Breeze_5679", "בוילר ראשי", "café", "x", "a b", "Tab\there",
+            # names that are not in a composed normal form: the bytes the device sent are the name
+            "e\u0301te\u0301", "\u212b ngstrom", "\u2126 heater", "\u212a", "\ufb2a\u05dc\u05d5\u05dd", "\u05e9\u05c1\u05dc\u05d5\u05dd", "a\u0301\u0323", "a\u0323\u0301",
+            "\uf900", "\U0001d15e", "\u1e9b\u0323", "\u00e9 and e\u0301", "\uff21\uff22", "\u2460 first", "\ufb01re", "I\u0307", "\u0130stanbul", "\u00df", "\u1e9e"]
     seen, res = set(), []
     for n in out:
         if n not in seen and 0 < len(n.encode()) <= 32:
